@@ -385,10 +385,7 @@ def derivatives(
     """
     if regime == DeformationRegime.min_viscosity:
         # Do absolutely nothing, all derivatives are zero.
-        return (
-            np.repeat(np.eye(3), n_grains).reshape(3, 3, n_grains).transpose(),
-            np.zeros(n_grains),
-        )
+        return (np.zeros((n_grains, 3, 3)), np.zeros(n_grains))
     elif regime == DeformationRegime.matrix_diffusion:
         # Passive rotation based on macroscopic vorticity for diffusion creep?
         # vorticity = 0.5 * (velocity_gradient - velocity_gradient.transpose())
@@ -466,10 +463,7 @@ def derivatives(
         return orientations_diff, fractions_diff
     elif regime == DeformationRegime.max_viscosity:
         # Do absolutely nothing, all derivatives are zero.
-        return (
-            np.repeat(np.eye(3), n_grains).reshape(3, 3, n_grains).transpose(),
-            np.zeros(n_grains),
-        )
+        return (np.zeros((n_grains, 3, 3)), np.zeros(n_grains))
     else:
         raise ValueError(f"regime must be a valid `DeformationRegime`, not {regime}")
 
